@@ -74,6 +74,31 @@ class Ctx:
         self.case_timeout = int(spec.get("case_timeout", 60))
         self.hangs = 0
         self.case_extra = None  # dict merged into the case of every witness (callables are evaluated)
+        self.last_sample = None  # description of the case in progress (for the progress watchdog)
+        self._watchdog = False
+
+    # ------------------------------------------------------- progress watchdog
+    def start_watchdog(self):
+        """Every registered case re-arms a SIGALRM; when the worker registers no
+        new case for ``case_timeout`` seconds CaseTimeout is raised in the main
+        thread: the case in progress is reported and, if the shard again makes
+        no progress when the orchestrator re-runs it alone, called a hang."""
+        def fire(signum, frame):
+            raise CaseTimeout()
+
+        signal.signal(signal.SIGALRM, fire)
+        signal.alarm(self.case_timeout)
+        self._watchdog = True
+
+    def stop_watchdog(self):
+        if self._watchdog:
+            signal.alarm(0)
+            self._watchdog = False
+
+    def report_hang(self, case=None):
+        self.hangs += 1
+        self.violation("hang", "watchdog", case if case is not None else (self.last_sample or {"note": "case in progress was not sampled"}),
+                       expected="library call returns", observed="no progress within %d s" % self.case_timeout)
 
     # ------------------------------------------------------------------ rng
     def rng(self, *tag):
@@ -89,6 +114,9 @@ class Ctx:
 
     def case(self, key, nontrivial=True, sample=None):
         self.evals += 1
+        if self._watchdog:
+            signal.alarm(self.case_timeout)
+        self.last_sample = sample if sample is not None else {"case_key": repr(key)[:400]}
         if nontrivial:
             self.distinct.add(h64(key))
         if sample is not None:
@@ -158,40 +186,62 @@ class Ctx:
 
 
 class _Guard:
-    """Per-case wall-clock watchdog.
+    """Per-case scope: a CaseTimeout (progress watchdog) or an exception nobody
+    asked for that escapes from library code inside the scope is recorded as a
+    witness for this case and the worker carries on with the next case.
 
-    A library call on a forest of a dozen nodes takes micro-seconds.  When one
-    has not returned after ``case_timeout`` seconds (default 60 s, i.e. five to
-    six orders of magnitude over the normal cost) the worker abandons the case
-    and reports it; the orchestrator re-runs it alone and only then calls it a
-    violation (class ``hang``).  Everything else about time is inconclusive."""
+    A library call on a forest of a dozen nodes takes micro-seconds; the
+    watchdog fires after ``case_timeout`` seconds (default 60 s) without
+    progress.  The orchestrator re-runs the shard alone and only then calls it
+    a violation (class ``hang``).  Everything else about time is inconclusive."""
 
     def __init__(self, ctx, case):
         self.ctx = ctx
         self.case = case
 
-    def _fire(self, signum, frame):
-        raise CaseTimeout()
-
     def __enter__(self):
-        self.old = signal.signal(signal.SIGALRM, self._fire)
-        signal.alarm(self.ctx.case_timeout)
+        if self.ctx._watchdog:
+            signal.alarm(self.ctx.case_timeout)
+        self.ctx.last_sample = self.case
         return self
 
     def __exit__(self, et, ev, tb):
-        signal.alarm(0)
-        signal.signal(signal.SIGALRM, self.old)
+        if self.ctx._watchdog:
+            signal.alarm(self.ctx.case_timeout)
         if et is CaseTimeout:
-            self.ctx.hangs += 1
-            self.ctx.violation(
-                "hang",
-                "watchdog",
-                self.case,
-                expected="library call returns",
-                observed="no return within %d s" % self.ctx.case_timeout,
-            )
+            self.ctx.report_hang(self.case)
             return True
+        if et is not None and issubclass(et, Exception):
+            where = library_origin(tb)
+            if where is not None:
+                # an exception nobody asked for escaped from library code
+                self.ctx.violation(
+                    "unexpected-exception/%s@%s" % (et.__name__, where[0]),
+                    "no-unexpected-exception",
+                    self.case,
+                    expected="no exception from the library here",
+                    observed={"exception": "%s: %s" % (et.__name__, str(ev)[:300]), "raised_in": "%s:%s (%s)" % where},
+                )
+                return True
         return False
+
+
+def library_origin(tb):
+    """(file, line, function) of the innermost traceback frame when, walking
+    from the innermost frame outwards, a frame of /repo/anytree comes before
+    any harness frame; else None (the harness itself is at fault)."""
+    frames = []
+    while tb is not None:
+        frames.append((tb.tb_frame.f_code.co_filename, tb.tb_lineno, tb.tb_frame.f_code.co_name))
+        tb = tb.tb_next
+    libdir = os.path.join(REPO, "anytree") + os.sep
+    verif = os.path.dirname(os.path.dirname(os.path.abspath(__file__))) + os.sep
+    for fn, line, func in reversed(frames):
+        if fn.startswith(libdir):
+            return (fn[len(REPO) + 1:], line, func)
+        if fn.startswith(verif):
+            return None
+    return None
 
 
 def excname(exc):
